@@ -86,6 +86,7 @@ type Ctx struct {
 	Tier    string
 	Case    int
 	Scratch string // private empty directory for this case (removed afterwards)
+	BatchDir string // directory of the child process (race logs live here)
 	Env     map[string]string
 }
 
@@ -119,6 +120,8 @@ type Monitor struct {
 	Need []string
 	// ChildEnv adds environment variables for children.
 	ChildEnv []string
+	// RaceLog: children are -race builds; collect reports in <Ctx.BatchDir>/race.* instead of stopping.
+	RaceLog bool
 	// Post runs in the parent after aggregation and may add issues (e.g. cross-case checks).
 	Post func(a *Agg)
 	// Setup runs once in the parent before children start (may build shared artefacts in a.Shared).
@@ -267,7 +270,7 @@ func runChild(m *Monitor, tier string, seed int64, from, to int, journal string)
 		fmt.Fprintf(jf, "S %d\n", c)
 		dir := filepath.Join(scratch, fmt.Sprintf("case%d", c))
 		os.MkdirAll(dir, 0o755)
-		ctx := &Ctx{Prop: m.ID, Seed: seed, Tier: tier, Case: c, Scratch: dir}
+		ctx := &Ctx{Prop: m.ID, Seed: seed, Tier: tier, Case: c, Scratch: dir, BatchDir: scratch}
 		res := m.Run(ctx)
 		res.Case = c
 		os.RemoveAll(dir)
@@ -354,6 +357,10 @@ func (m *Monitor) runBatch(tier string, seed int64, from, to int, scratch string
 		cmd.Stderr = lf
 		cmd.Env = append(os.Environ(), "VERIF_CHILD_SCRATCH="+dir, "VERIF_SEED="+strconv.FormatInt(seed, 10))
 		cmd.Env = append(cmd.Env, m.ChildEnv...)
+		if m.RaceLog {
+			// race reports go to <batch dir>/race.<pid>; the run continues after a report
+			cmd.Env = append(cmd.Env, "GORACE=halt_on_error=0 log_path="+filepath.Join(dir, "race"))
+		}
 		cmd.SysProcAttr = &syscall.SysProcAttr{Setpgid: true}
 		timeout := m.BatchTimeout
 		if timeout == 0 {
